@@ -43,6 +43,33 @@ def step (ps : Option PartSet.PartSet) (toks : List String) : Option PartSet.Par
     match (kv rest "root").bind ofHex, (kv rest "leaf").bind ofHex, parseProof rest with
     | some r, some leaf, some p => (ps, showVerify (verify Hs r leaf p))
     | _, _, _ => (ps, "bad-op")
+  -- concurrent ops: the implementation runs k goroutines at once; every linearisation of these
+  -- pure / mutex-protected operations gives the sequential answer computed here
+  | "croots" :: rest =>
+    match (kv rest "items").bind hexList, (kv rest "k").bind String.toNat? with
+    | some items, some k =>
+      (ps, ",".intercalate ((List.range k).map fun j => toHex (root Hs (items.rotateLeft j))))
+    | _, _ => (ps, "bad-op")
+  | "cverify" :: rest =>
+    match (kv rest "root").bind ofHex, (kv rest "leaf").bind ofHex, parseProof rest,
+          (kv rest "k").bind String.toNat? with
+    | some r, some leaf, some p, some k =>
+      (ps, ",".intercalate ((List.range k).map fun j =>
+        let lf := match leaf.reverse with
+          | [] => []
+          | b :: t => ((b ^^^ UInt8.ofNat j) :: t).reverse
+        showVerify (verify Hs r lf p)))
+    | _, _, _, _ => (ps, "bad-op")
+  | "cadd" :: rest =>
+    match ps, (kv rest "idx").bind String.toNat?, (kv rest "bytes").bind ofHex, parseProof rest,
+          (kv rest "k").bind String.toNat? with
+    | some s, some idx, some b, some pr, some k =>
+      let (s', rs) := (List.range k).foldl (fun (acc : PartSet.PartSet × List AddRes) _ =>
+        let (s1, r) := addPart Hs acc.1 { index := idx, bytes := b, proof := pr }
+        (s1, r :: acc.2)) (s, [])
+      let cnt (x : AddRes) := (rs.filter (· == x)).length
+      (some s', s!"added={cnt .added} dup={cnt .dup} err-index={cnt .errIndex} err-proof={cnt .errProof}")
+    | _, _, _, _, _ => (ps, "bad-op")
   | "txhash" :: rest =>
     match (kv rest "txs").bind hexList with
     | some txs => (ps, toHex (TxProof.txsHash Hs txs))
